@@ -101,6 +101,11 @@ def build_items(ctx, quick):
     for n, e in enumerate(dl[:300 if quick else 3000]):
         items.append(dict(id="d%d" % n, text=render.toks_to_text(e["toks"]), inst=decorate(ctx, e["inst"], n), builds=1 + n % 2))
     ctx.log("deep nestings: %d sampled of %d simulated states" % (min(len(dl), 300 if quick else 3000), len(dl)))
+    from props import scale
+    big = ("nest_paren", "nest_not", "nest_arr", "nest_call", "nest_blk", "nest_fn", "rep_call0", "rep_if_else")
+    for n, s in enumerate(x for x in scale.items(ctx, quick) if x["n"] <= 130 or (x["fam"] in big and x["n"] <= 300 and x["id"].endswith("sp"))):
+        inst = [["r"], ["s", "e"], ["e", "r", "s"], ["s"], ["t", "s", "r"]][n % 5]
+        items.append(dict(id=s["id"], text=s["text"], inst=inst, builds=1))
     nvalid = len(items)
     # malformed inputs: token strings of the C11 enumerator, with longer installation histories
     mc = ctx.tlc("MC_C11", "MC_C11_quick2.cfg" if quick else "MC_C11_thorough2.cfg", timeout=3000, xss="256m")
